@@ -186,18 +186,24 @@ def expand_family(ck, quick, rng, case0):
     jobs, metas = [], []
     for g in graphs:
         files, texts, paths = render_graph(rng, g)
-        jobs.append({"mode": "asm", "files": texts, "roots": [paths[0]],
+        # a quarter of the graphs with several files are assembled from two or three root files
+        roots = [1]
+        if len(g) >= 2 and rng.random() < 0.25:
+            roots += rng.sample(range(2, len(g) + 1), rng.choice([1, 1, 2]) if len(g) > 2 else 1)
+            if rng.random() < 0.2:
+                roots.append(1)                       # the first root named again
+        jobs.append({"mode": "asm", "files": texts, "roots": [paths[r - 1] for r in roots],
                      "want": {"events": False, "spans": False, "messages": False}})
-        metas.append((g, files, paths))
+        metas.append((g, files, paths, roots))
     results = common.run_jobs(jobs, ck.wd + "/jobs-exp")
     ck.evaluations += len(jobs)
     events, info = [], {}
     case = case0
-    for (g, files, paths), j, r in zip(metas, jobs, results):
+    for (g, files, paths, roots), j, r in zip(metas, jobs, results):
         crash = bool(r.get("crash") or r.get("panic"))
         ok = (not crash) and (not r.get("error")) and r.get("bits") is not None
         bits = r.get("bits") or ""
-        events.append({"ev": "expand", "case": case, "crash": crash, "files": files, "root": 1,
+        events.append({"ev": "expand", "case": case, "crash": crash, "files": files, "root": 1, "roots": roots,
                        "rootname": chars(paths[0]), "code": -1, "signal": 0, "ok": ok,
                        "markers": [int(bits[i:i + 8], 2) for i in range(0, len(bits) - 7, 8)] if ok else []})
         info[case] = {"family": "expand", "graph": g, "root": paths[0], "files": j["files"], "ok": ok,
